@@ -191,7 +191,9 @@ def install(stub_str=True, validate_lp=False):
 
 STUBS_DOC = [
     "float (name rebound in pacti modules): accepts proxies, maps numeral placeholders to symbols",
-    "scipy.optimize.linprog -> exact parametric LP (Fourier-Motzkin projection; any optimal point)",
+    "scipy.optimize.linprog -> exact parametric LP (Fourier-Motzkin projection; any optimal point; variable bounds as extra rows; a problem without variables is refused as scipy does; fully concrete problems go to the real HiGHS)",
     "sympy.solve -> exact rational row reduction with symbolic right-hand sides",
-    "np.isclose on symbolic scalars (serializer only): |a-b| <= atol + rtol*|b| over the reals",
+    "np.isclose / np.equal / abs on symbolic scalars (serializer and polyhedra modules): |a-b| <= atol + rtol*|b| over the reals",
+    "PolyhedralTerm.__str__ / PolyhedralTermList.__str__ -> constant tokens where printing is not the subject; formatting of symbolic numbers -> canonical tokens (C10: a .4g model with an integer mantissa)",
+    "json in pacti.utils.fileio (C10 file modes, symbolic runs): token round trip of the dumped object",
 ]
